@@ -96,6 +96,25 @@ func (w *dnsWorld) c07AfterOp(op *dnsOp) {
 		s.Failf("c07-unbounded-reasks", "question %s %s caused %d upstream queries\n%s", op.qname, dnsmessage.TypeToString[op.qtype], len(hops), rs.textCache)
 		return
 	}
+	// an answer the response rules sent on to another upstream is never what the client gets
+	if reply != nil && op.err == nil {
+		got, _ := w.decodeAnswers(reply.Answer)
+		for _, q := range hops {
+			a := q.answered
+			if a == nil || a.empty || q.name != op.name || q.qtype != op.qtype {
+				continue
+			}
+			if v := rs.evalResponse(lname, op.qtype, q.up, a.ips); v >= 0 {
+				for _, id := range got {
+					if id == a.id {
+						s.Failf("c07-answer-sent-elsewhere-delivered"+rs.negClass(), "question %s %s: answer a%d from %s matches a response rule that asks again at %s, yet it is what the client received (queries of this resolution: %s)\n%s",
+							op.qname, dnsmessage.TypeToString[op.qtype], a.id, w.upName(q.up), w.upName(v), w.hopsText(hops), rs.textCache)
+						return
+					}
+				}
+			}
+		}
+	}
 	for i, q := range hops {
 		if q.name != op.name || q.qtype != op.qtype {
 			s.Failf("c07-reask-changed-question", "question %s %s: upstream query #%d asks %s %s", op.qname, dnsmessage.TypeToString[op.qtype], q.seq, q.qname, dnsmessage.TypeToString[q.qtype])
@@ -122,7 +141,7 @@ func (w *dnsWorld) c07AfterOp(op *dnsOp) {
 			s.Probe("dns.c07-reask")
 			if last {
 				// the chain was cut: only legitimate as the loop bound, which must surface as an error
-				if op.err == nil && reply != nil && len(hops) < 2 {
+				if op.err == nil && reply != nil {
 					s.Failf("c07-reask-not-performed"+rs.negClass(), "question %s %s: answer a%d from %s matches a response rule that asks again at %s, but no further query was sent and the client got a reply\n%s",
 						op.qname, dnsmessage.TypeToString[op.qtype], a.id, w.upName(q.up), w.upName(verdict), rs.textCache)
 				}
@@ -169,6 +188,23 @@ func (w *dnsWorld) c07AfterOp(op *dnsOp) {
 			return
 		}
 	}
+}
+
+func (w *dnsWorld) hopsText(hops []*dnsUpQuery) string {
+	var p []string
+	for _, q := range hops {
+		t := fmt.Sprintf("#%d->%s", q.seq, w.upName(q.up))
+		if q.answered != nil {
+			t += fmt.Sprintf(":a%d", q.answered.id)
+			if q.answered.rcode != 0 {
+				t += fmt.Sprintf("(rcode %d)", q.answered.rcode)
+			}
+		} else {
+			t += ":no answer"
+		}
+		p = append(p, t)
+	}
+	return strings.Join(p, " ")
 }
 
 func dnsScenarioC07(w *dnsWorld) {
